@@ -160,7 +160,15 @@ Codes == {"Unavailable", "PermissionDenied", "Aborted", "InvalidArgument", "NotF
 Script(id, name, icpt, reg, hasfb, fb, hasfac, fac, refuse, typed, k, hdr, trl, errAt, code, cf, rep) ==
   [id |-> id, name |-> name, icpt |-> icpt, dflt |-> "dflt", reg |-> reg, hasfb |-> hasfb, fb |-> fb,
    hasfac |-> hasfac, fac |-> fac, refuse |-> refuse, typed |-> typed, k |-> k, hdr |-> hdr, trl |-> trl,
-   errAt |-> errAt, code |-> code, msg |-> IF errAt = -1 THEN "" ELSE "child says " \o code, cf |-> cf, rep |-> rep]
+   errAt |-> errAt, code |-> code, msg |-> IF errAt = -1 THEN "" ELSE "child says " \o code, cf |-> cf, rep |-> rep,
+   via |-> "conn", shapes |-> <<>>]
+\* via: what the registered client is - "conn": a typed client over the recording connection; "wrap": a typed
+\* client over wrap.ServerToClient around an in-process server (another instance of the same router, whose own
+\* child is the recording connection), the usual child of a router.  shapes: how the child fills its j-th
+\* message ("full": every field, long lists; "sparse": few fields, short lists; "empty"; anything else: random),
+\* so that consecutive messages differ in which fields are set and in the lengths of their repeated fields.
+\* The clause is the same for all: message j delivered to the caller equals message j the child sent.
+Shaped(sc, via, shapes) == [sc EXCEPT !.via = via, !.shapes = shapes]
 
 ----------------------------------------------------------------------------
 (* MC: the forwarder as a step machine                                     *)
@@ -263,6 +271,11 @@ RandScript(z) ==
             hasfb, IF hasfb THEN (IF Flip(z, 50) THEN FbPlain ELSE FbOverlap) ELSE <<>>,
             hasfac, IF hasfac THEN (IF Flip(z, 50) THEN FacPlain ELSE FacOverlap) ELSE <<>>,
             R({"nil", "err"}), Flip(z, 50), k, R({H0, H1, H2}), R({H0, T1, T2}), errAt, R(Codes), cf, W(<<1, 1, 2>>))
+\* (a wrapped child runs in its own goroutine: it is only used when the caller stays to the end)
+RandShaped(z) ==
+  LET sc == RandScript(z) IN
+  Shaped(sc, IF sc.cf = -1 /\ Flip(z, 40) THEN "wrap" ELSE "conn",
+         [j \in 1..4 |-> W(<<"full", "sparse", "empty", "rand", "rand">>)])
 
 \* a fixed core so that every method of every router meets every kind of outcome whatever the seed
 CoreScripts ==
@@ -283,7 +296,22 @@ CoreBlank ==
   { Script(0, n, TRUE, IF n \in {" ", "\t", "dev/A "} THEN RegBlank ELSE RegFull, FALSE, <<>>, FALSE, <<>>, "nil", FALSE,
            1, H1, T1, -1, "Aborted", -1, 1) : n \in BlankNames }
 
-GenInit == /\ s \in CoreScripts \cup CoreBlank \cup { RandScript(z) : z \in 1..NCases }
+\* ... and streams of different consecutive messages (a full one, a sparser one, an empty one, ...) from both
+\* kinds of child
+Decreasing == <<"full", "sparse", "empty", "sparse">>
+CoreShaped ==
+  { Shaped(Script(0, "dev/A", FALSE, RegFull, FALSE, <<>>, FALSE, <<>>, "nil", FALSE, 4, H2, T2, -1, "Aborted", -1, 1), via, Decreasing) :
+      via \in {"conn", "wrap"} }
+  \cup { Shaped(Script(0, "dev/B", TRUE, RegFull, FALSE, <<>>, FALSE, <<>>, "nil", FALSE, 3, H1, T1, 2, "Aborted", -1, 1), "wrap",
+                 <<"sparse", "full", "empty", "full">>),
+          Shaped(Script(0, "fac/G", FALSE, RegNoDflt, FALSE, <<>>, TRUE, FacPlain, "nil", TRUE, 3, H1, T2, -1, "Aborted", -1, 2), "wrap",
+                 <<"full", "empty", "full", "empty">>),
+          Shaped(Script(0, "fb/F", FALSE, RegFull, TRUE, FbPlain, FALSE, <<>>, "nil", FALSE, 2, H0, H0, -2, "Unavailable", -1, 1), "wrap",
+                 Decreasing),
+          Shaped(Script(0, "nope", FALSE, RegFull, FALSE, <<>>, FALSE, <<>>, "nil", FALSE, 2, H1, T1, -1, "Aborted", -1, 1), "wrap",
+                 Decreasing) }
+
+GenInit == /\ s \in CoreScripts \cup CoreBlank \cup CoreShaped \cup { RandShaped(z) : z \in 1..NCases }
            /\ stream = FALSE /\ pc = "gen" /\ i = 0 /\ o = 0
 GenNext == UNCHANGED vars
 EmitCase == PrintT("CASE " \o ToJson(s))
